@@ -71,6 +71,21 @@ def _pd_cases():
                 lambda: pa.DataFrameSchema({"a": C(int)}, index=pa.Index(int, pa.Check.ge(0))), lambda: pd.DataFrame({"a": [1, 2]}, index=[-1, 0])))
     out.append(("index_dtype_mismatch", "schema", "dfs",
                 lambda: pa.DataFrameSchema({"a": C(int)}, index=pa.Index(int)), lambda: pd.DataFrame({"a": [1, 2]}, index=["x", "y"])))
+    # MultiIndex: the constraints sit on the levels, the MultiIndex component itself has none
+    mi = lambda: pd.MultiIndex.from_arrays([[-1, 0], ["u", "v"]], names=["k0", "k1"])      # noqa: E731
+    mi_bad_dtype = lambda: pd.MultiIndex.from_arrays([["x", "y"], ["u", "v"]], names=["k0", "k1"])   # noqa: E731
+    out.append(("multiindex_level_check", "data", "dfs",
+                lambda: pa.DataFrameSchema({"a": C(int)}, index=pa.MultiIndex([pa.Index(int, pa.Check.ge(0), name="k0"), pa.Index(str, name="k1")])),
+                lambda: pd.DataFrame({"a": [1, 2]}, index=mi())))
+    out.append(("multiindex_level_dtype", "schema", "dfs",
+                lambda: pa.DataFrameSchema({"a": C(int)}, index=pa.MultiIndex([pa.Index(int, name="k0"), pa.Index(str, name="k1")])),
+                lambda: pd.DataFrame({"a": [1, 2]}, index=mi_bad_dtype())))
+    out.append(("index_unique", "data", "dfs",
+                lambda: pa.DataFrameSchema({"a": C(int)}, index=pa.Index(int, unique=True)), lambda: pd.DataFrame({"a": [1, 2]}, index=[3, 3])))
+    out.append(("series_index_check", "data", "series",
+                lambda: pa.SeriesSchema(int, index=pa.Index(int, pa.Check.ge(0)), name="s"), lambda: pd.Series([1, 2], index=[-1, 0], name="s")))
+    out.append(("series_index_dtype", "schema", "series",
+                lambda: pa.SeriesSchema(int, index=pa.Index(int), name="s"), lambda: pd.Series([1, 2], index=["x", "y"], name="s")))
     # stand-alone column
     out.append(("dtype_mismatch", "schema", "column",
                 lambda: C(int, name="a"), lambda: pd.DataFrame({"a": ["x", "y"]})))
